@@ -592,6 +592,27 @@ let handle (r : reader) : unit =
       let ncm = n_cells_max q w in
       out_s "OK"; out_n d;
       out_ranges (if op = "exp" then tf_expanded u ncm l else tf_contracted u ncm l)
+  | "VSEL" ->
+      (* VSEL fixed maxd from to asc strict nosplit rev n (d i v k)* <out ranges>
+         -> OK <model ranges | PANIC> | wf subset between order bracket samecell *)
+      let fixed = next r = "1" in
+      let maxd = next_n r in
+      let from = next_n r in
+      let to_ = next_n r in
+      let asc = next r = "1" in
+      let strict = next r = "1" in
+      let nosplit = next r = "1" in
+      let rev = next r = "1" in
+      let cells = next_list r (fun r -> let d = next_n r in let i = next_n r in let v = next_n r in let k = next_n r in
+                                { vd = d; vi = i; vv = v; vk = k }) in
+      let out = next_ranges r in
+      out_s "OK";
+      (match select fixed maxd cells from to_ asc strict nosplit rev with
+       | Some l -> out_ranges (canon_of (List.map (fun c -> cell_range Hpx (n_of_int 64) (fst c) (snd c)) l))
+       | None -> out_s " PANIC");
+      let v = check maxd cells from to_ asc strict nosplit out in
+      out_s " |";
+      out_bool v.v_wf; out_bool v.v_subset; out_bool v.v_between; out_bool v.v_order; out_bool v.v_bracket; out_bool v.v_samecell
   | "EXPR" ->
       let q = next_qty r in
       let w = next_n r in
